@@ -127,6 +127,21 @@ Definition resp_of (m : msg) : resp :=
   | _ => RInvalid
   end.
 
+(** framed but undecodable *)
+Definition is_bad (m : msg) : bool := match m with MEnc | MPlain => true | _ => false end.
+
+(** what the property expects for one batch item: success, the handler's typed reason, or
+    general failure for any other error and for any panic *)
+Definition item_result (b : beh) : item_res :=
+  match b with
+  | BOk | BSlow => ISuccess
+  | BTyped r | BPanicTyped r => IFailed r
+  | BNoRoute => IFailed reason_op_not_supported
+  | BCritical => IFailed reason_feature_not_supported
+  | BPlain | BPanicErr | BPanicStr | BPanicStringer | BPanicOther => IFailed reason_general_failure
+  end.
+
+
 (** * Control skeleton *)
 
 Inductive chanv := ChOpen | ChNil.            (* value of a [chan txMsg] variable *)
